@@ -101,3 +101,51 @@ func vh_CompressedRistrettoUnmarshal() {
 		verif.Assert(cp == id, "receiver is the identity encoding after an error")
 	}
 }
+
+// ---------------- group operations of the Ristretto wrappers (incl. aliased receivers) ----------------
+// The wrappers delegate to the Edwards operations; over the free Z-module ghost the result must be the stated
+// combination of the operands whatever the receiver aliases. (The Edwards formulas themselves: C03.)
+//
+//verif:ob prop=C11,C03 name=Ristretto_group_ops_aliasing mode=int tags=purego use=pt split=op:0..3;alias:0..2
+func vh_C11_groupops() {
+	op, alias := verif.Case("op"), verif.Case("alias")
+	a, b := &RistrettoPoint{}, &RistrettoPoint{}
+	a.inner = *any_EdwardsPoint("a")
+	b.inner = *any_EdwardsPoint("b")
+	verif.Assume(cls_EdwardsPoint(&a.inner) && cls_EdwardsPoint(&b.inner))
+	ka, kb := kGen(0), kGen(1)
+	setK(&a.inner, ka)
+	setK(&b.inner, kb)
+	p := &RistrettoPoint{}
+	switch alias {
+	case 1:
+		p = a
+	case 2:
+		p = b
+	}
+	var want kvec
+	switch op {
+	case 0:
+		p.Add(a, b)
+		want = kAdd(ka, kb)
+	case 1:
+		p.Sub(a, b)
+		want = kSub(ka, kb)
+	case 2:
+		p.Neg(a)
+		want = kSub(kZero(), ka)
+	case 3:
+		if alias != 0 {
+			return // Sum resets its receiver first: documented to take distinct values
+		}
+		p.Sum([]*RistrettoPoint{a, b, a})
+		want = kAdd(kAdd(ka, kb), ka)
+	}
+	verif.Assert(kEq(getK(&p.inner), want), "result is the stated combination of the operands, also when the receiver aliases one of them")
+	if alias != 1 {
+		verif.Assert(kEq(getK(&a.inner), ka), "operand a untouched")
+	}
+	if alias != 2 {
+		verif.Assert(kEq(getK(&b.inner), kb), "operand b untouched")
+	}
+}
